@@ -23,7 +23,9 @@ MANIFEST = dict(
         design="5/C14")
 CFG = {
     "quick":    dict(mc=["MC_NodeTree.cfg"], gen=["Gen_NodeTree.cfg"], nhist=30, steps=100),
-    "thorough": dict(mc=["MC_NodeTree_t.cfg"], gen=["Gen_NodeTree.cfg"], nhist=200, steps=300),
+    "thorough": dict(mc=["MC_NodeTree_t.cfg", "MC_NodeTree_t2.cfg", "MC_NodeTree_f.cfg"],
+                     gen=["Gen_NodeTree.cfg", "Gen_NodeTree_t3.cfg", "Gen_NodeTree_t.cfg", "Gen_NodeTree_t2.cfg"],
+                     nhist=150, steps=300),
 }
 SEAM = ("malloc=vf_malloc", "free=vf_free", "calloc=vf_calloc", "realloc=vf_realloc")
 
@@ -146,12 +148,16 @@ def binding_a(ck, exe, gencfg, tag, nt, samples):
         rootb.append(beh)
     # run the failing behaviours once more (fully logged) before reporting
     roots = 0
+    persig = {}
     if rootb:
         recs, _ = vlib.run_driver(exe, vlib.to_script(rootb))
         for mm in vlib.compare(rootb, recs, match):
             roots += 1
-            ck.violation(signature(mm), {"binding": "A(replay)", "behaviour": rootb[mm["b"]], "step": mm["i"],
-                                         "why": mm["why"], "record": mm["rec"]})
+            sig = signature(mm)
+            persig[sig] = persig.get(sig, 0) + 1
+            if persig[sig] <= 3:       # a few replay files per signature are enough
+                ck.violation(sig, {"binding": "A(replay)", "behaviour": rootb[mm["b"]], "step": mm["i"],
+                                   "why": mm["why"], "record": mm["rec"]})
     if total != gen.generated - 1:
         raise vlib.MachineryError("behaviour export incomplete: %d lines for %d transitions" % (total, gen.generated - 1))
     ck.cov["evaluations"] += total
